@@ -1,16 +1,18 @@
-//! C17 handshake tier — actors (own master on the worker's command channel, TLS clients) and the run.
+//! C17 handshake tier — actors (own master on the worker's command channel, TLS clients that send a
+//! sequence of requests over HTTP/1.1 keep-alive or HTTP/2 streams, one HTTP/1.1 backend per tenant) and the run.
 //!
 //! Every observation is stamped with the world's global event counter (`World.trace.1`: one tick per
 //! actor step, per sozu syscall, per epoll delivery), which totally orders what the master and the
 //! clients did and saw.
 #![allow(dead_code)]
 use std::any::Any;
+use std::collections::{BTreeMap, BTreeSet};
 use std::net::SocketAddr;
 
 use prost::Message;
 use sozu_command_lib::config::ListenerBuilder;
 use sozu_command_lib::proto::command::{
-    request::RequestType, ActivateListener, AddCertificate, Cluster, HardStop, ListenerType, PathRule, RemoveCertificate, ReplaceCertificate, Request,
+    request::RequestType, ActivateListener, AddBackend, AddCertificate, Cluster, HardStop, ListenerType, LoadBalancingParams, PathRule, RemoveCertificate, ReplaceCertificate, Request,
     RequestHttpFrontend, ResponseStatus, RulePosition, WorkerRequest, WorkerResponse,
 };
 use sozu_command_lib::scm_socket::Listeners;
@@ -18,12 +20,15 @@ use sozu_command_lib::state::ConfigState;
 
 use super::hs::*;
 use super::{build_ck, resolve_ref, Fx, Op};
+use crate::actors::h1::{BackendPlan, BodySpec, H1Backend, RespSpec};
+use crate::actors::h1codec::{Kind, Parser};
 use crate::actors::h2codec::{FrameReader, HpackDecoder, HpackEncoder, RawFrame, Repr};
 use crate::actors::master::{frame, Master};
 use crate::actors::tls::{ReadOutcome, TlsPlan, TlsTransport, TlsVersions, Transport};
-use crate::actors::{rd, wr, Io};
+use crate::actors::{rd, wr, Io, Pace};
+use crate::prng::Prng;
 use crate::netsim::{self, Knobs};
-use crate::world::{Actor, Step, World, SEC};
+use crate::world::{Actor, ConnectMode, Step, World, SEC};
 
 pub fn seq(w: &World) -> u64 { w.trace.1 }
 
@@ -256,10 +261,9 @@ pub struct ClientObs {
     pub eof_before_cert: bool,
     pub version: Option<String>,
     pub alpn: Option<String>,
-    pub req_sent: bool,
-    pub status: Option<u16>,
-    /// stamp taken when the response status was read (or the connection ended without one)
-    pub status_seq: Option<u64>,
+    /// one entry per planned request (first, then `more`), in sending order
+    pub reqs: Vec<ReqObs>,
+    /// connection-level end of the HTTP exchange (GOAWAY, unparsable answer)
     pub h2_end: Option<String>,
     pub gave_up: bool,
     pub gate_timed_out: bool,
@@ -267,6 +271,28 @@ pub struct ClientObs {
     /// stamp taken when a held Finished flight was released
     pub released: Option<u64>,
 }
+
+#[derive(Clone, Debug, Default)]
+pub struct ReqObs {
+    /// stamp taken before the first byte of the request was handed to the TLS layer
+    pub sent_start: Option<u64>,
+    /// every byte of the request was written to the socket
+    pub sent: bool,
+    pub status: Option<u16>,
+    /// `x-tenant` of the answer: set by the mock backend of the tenant that answered
+    pub tenant: Option<String>,
+    /// `x-sim-id` of the answer (the backend echoes the id of the request it answers)
+    pub echo: Option<u64>,
+    /// stamp taken when the status was read, or when the exchange ended without one
+    pub status_seq: Option<u64>,
+    /// the answer (or the stream) is over
+    pub complete: bool,
+    /// stream-level end without an answer (RST_STREAM, refused by GOAWAY)
+    pub end: Option<String>,
+}
+
+/// id carried in `x-sim-id` by request `k` of client `i`
+pub fn sim_id(client: usize, k: usize) -> u64 { client as u64 * 10 + k as u64 + 1 }
 
 /// TLS 1.2-only ClientHello carrying `sni` verbatim
 pub fn hello12(sni: Option<&[u8]>, salt: u8) -> Vec<u8> {
@@ -319,6 +345,13 @@ pub struct HsClient {
     plain_in: Vec<u8>,
     req: Vec<u8>,
     req_off: usize,
+    /// authorities of the planned requests and whether each is opened together with its predecessor
+    seq_plan: Vec<(String, bool)>,
+    h2: bool,
+    /// requests handed to the TLS layer so far
+    emitted: usize,
+    h1p: Parser,
+    goaway: bool,
     h2r: FrameReader,
     hdec: Option<HpackDecoder>,
     pub obs: ClientObs,
@@ -327,7 +360,7 @@ pub struct HsClient {
 impl HsClient {
     pub fn new(idx: usize, plan: ClientPlan, dst: SocketAddr) -> HsClient {
         let src: SocketAddr = format!("192.0.2.{}:{}", 10 + idx, 40000 + idx).parse().unwrap();
-        HsClient { idx, plan, src, dst, state: 0, start_at: 0, gate_deadline: None, paused_at: 0, give_up_at: 0, tr: None, raw_fd: -1, hello: Vec::new(), hello_off: 0, rec_buf: Vec::new(), hs_stream: Vec::new(), plain_in: Vec::new(), req: Vec::new(), req_off: 0, h2r: FrameReader::new(false), hdec: None, obs: ClientObs::default() }
+        HsClient { idx, plan, src, dst, state: 0, start_at: 0, gate_deadline: None, paused_at: 0, give_up_at: 0, tr: None, raw_fd: -1, hello: Vec::new(), hello_off: 0, rec_buf: Vec::new(), hs_stream: Vec::new(), plain_in: Vec::new(), req: Vec::new(), req_off: 0, seq_plan: Vec::new(), h2: false, emitted: 0, h1p: Parser::new(Kind::Response), goaway: false, h2r: FrameReader::new(false), hdec: None, obs: ClientObs::default() }
     }
 
     fn phase(&self, w: &mut World, ph: i64) {
@@ -337,7 +370,8 @@ impl HsClient {
 
     fn finish(&mut self, w: &mut World) -> Step {
         if self.obs.started && self.obs.hs_end.is_none() { self.obs.hs_end = Some(seq(w)); self.obs.t_end = w.now; }
-        if self.obs.req_sent && self.obs.status_seq.is_none() { self.obs.status_seq = Some(seq(w)); }
+        let now = seq(w);
+        for r in self.obs.reqs.iter_mut() { if r.sent_start.is_some() && r.status_seq.is_none() { r.status_seq = Some(now); } }
         if let Some(t) = self.tr.as_mut() { t.close(); }
         if self.raw_fd >= 0 { crate::sys::close(self.raw_fd); self.raw_fd = -1; }
         self.state = 9;
@@ -391,58 +425,113 @@ impl HsClient {
         false
     }
 
-    fn build_request(&mut self) {
+    fn begin_requests(&mut self, w: &World) {
         let Some(r) = self.plan.request.clone() else { return };
-        if r.h2 {
-            let mut v = b"PRI * HTTP/2.0\r\n\r\nSM\r\n\r\n".to_vec();
-            v.extend(RawFrame::new(4, 0, 0, vec![]).encode());
-            let mut block = Vec::new();
-            HpackEncoder::indexed(&mut block, 2);
-            HpackEncoder::indexed(&mut block, 7);
-            HpackEncoder::indexed(&mut block, 4);
-            HpackEncoder::literal(&mut block, b":authority", r.host.as_bytes(), Repr::NoIndex, Some(1), false);
-            v.extend(RawFrame::new(1, 0x05, 1, block).encode());
-            self.req = v;
+        self.h2 = r.h2;
+        self.seq_plan = std::iter::once((r.host.clone(), false)).chain(self.plan.more.iter().map(|m| (m.host.clone(), m.concurrent && r.h2))).collect();
+        self.obs.reqs = vec![ReqObs::default(); self.seq_plan.len()];
+        if self.h2 {
+            self.req = b"PRI * HTTP/2.0\r\n\r\nSM\r\n\r\n".to_vec();
+            self.req.extend(RawFrame::new(4, 0, 0, vec![]).encode());
             self.hdec = Some(HpackDecoder::new());
-        } else {
-            self.req = format!("GET / HTTP/1.1\r\nHost: {}\r\nConnection: close\r\n\r\n", r.host).into_bytes();
+        }
+        self.emit_next(w);
+    }
+
+    /// hand the next request (and, on HTTP/2, the requests opened together with it) to the TLS layer
+    fn emit_next(&mut self, w: &World) {
+        loop {
+            let k = self.emitted;
+            if k >= self.seq_plan.len() { return; }
+            let host = self.seq_plan[k].0.clone();
+            let id = sim_id(self.idx, k);
+            self.obs.reqs[k].sent_start = Some(seq(w));
+            if self.h2 {
+                let mut block = Vec::new();
+                HpackEncoder::indexed(&mut block, 2);
+                HpackEncoder::indexed(&mut block, 7);
+                HpackEncoder::indexed(&mut block, 4);
+                HpackEncoder::literal(&mut block, b":authority", host.as_bytes(), Repr::NoIndex, Some(1), false);
+                HpackEncoder::literal(&mut block, b"x-sim-id", id.to_string().as_bytes(), Repr::NoIndex, None, false);
+                self.req.extend(RawFrame::new(1, 0x05, 2 * k as u32 + 1, block).encode());
+            } else {
+                let last = k + 1 == self.seq_plan.len();
+                self.req.extend_from_slice(format!("GET / HTTP/1.1\r\nHost: {host}\r\nx-sim-id: {id}\r\n{}\r\n", if last { "Connection: close\r\n" } else { "" }).as_bytes());
+                self.h1p.expect.push_back("GET".into());
+            }
+            self.emitted += 1;
+            if !(self.h2 && self.emitted < self.seq_plan.len() && self.seq_plan[self.emitted].1) { return; }
         }
     }
 
-    /// digest plaintext; true when the status is known or the exchange is over
-    fn digest_response(&mut self) -> bool {
-        let h2 = self.plan.request.as_ref().map(|r| r.h2).unwrap_or(false);
-        if !h2 {
-            if let Some(p) = self.plain_in.windows(2).position(|x| x == b"\r\n") {
-                let line = String::from_utf8_lossy(&self.plain_in[..p]).to_string();
-                self.obs.status = line.split(' ').nth(1).and_then(|s| s.parse().ok());
-                if self.obs.status.is_none() { self.obs.h2_end = Some(format!("bad status line {line:?}")); }
-                return true;
-            }
-            return false;
-        }
+    fn note_answer(&mut self, w: &World, k: usize, status: Option<u16>, tenant: Option<String>, echo: Option<u64>) {
+        let Some(r) = self.obs.reqs.get_mut(k) else { return };
+        if r.status_seq.is_some() { return; }
+        r.status = status;
+        r.tenant = tenant;
+        r.echo = echo;
+        r.status_seq = Some(seq(w));
+    }
+
+    /// digest plaintext; true when the exchange is over (every planned request has its answer, or no
+    /// further answer can come)
+    fn digest_response(&mut self, w: &World) -> bool {
         let data = std::mem::take(&mut self.plain_in);
-        self.h2r.feed(&data);
-        while let Some(f) = self.h2r.next() {
-            match f.head.ty {
-                4 if f.head.flags & 1 == 0 => { self.req.extend(RawFrame::new(4, 1, 0, vec![]).encode()); }
-                1 if f.head.stream == 1 => {
-                    let mut pl = &f.payload[..];
-                    if f.head.flags & 0x08 != 0 && !pl.is_empty() { let pad = pl[0] as usize; pl = &pl[1..]; if pad <= pl.len() { pl = &pl[..pl.len() - pad]; } }
-                    if f.head.flags & 0x20 != 0 && pl.len() >= 5 { pl = &pl[5..]; }
-                    match self.hdec.as_mut().map(|d| d.decode(pl)) {
-                        Some(Ok(b)) => { self.obs.status = b.fields.iter().find(|(n, _)| n == ":status").and_then(|(_, v)| v.parse().ok()); }
-                        Some(Err(e)) => { self.obs.h2_end = Some(format!("hpack: {e}")); }
-                        None => {}
+        if !self.h2 {
+            self.h1p.feed(&data, w.now);
+            if let Some(e) = self.h1p.error.clone() { self.obs.h2_end = Some(format!("unparsable answer: {e}")); return true; }
+            let heads: Vec<(Option<u16>, Option<String>, Option<u64>, bool)> = self.h1p.done.iter().map(|m| (m, true)).chain(self.h1p.cur.iter().map(|m| (m, false)))
+                .map(|(m, done)| (Some(m.status()).filter(|s| *s != 0), m.header("x-tenant").map(|s| s.to_string()), m.sim_id, done)).collect();
+            for (k, (st, tenant, echo, done)) in heads.into_iter().enumerate() {
+                self.note_answer(w, k, st, tenant, echo);
+                if done { if let Some(r) = self.obs.reqs.get_mut(k) { r.complete = true; } }
+            }
+        } else {
+            self.h2r.feed(&data);
+            while let Some(f) = self.h2r.next() {
+                let k = if f.head.stream % 2 == 1 { (f.head.stream as usize - 1) / 2 } else { usize::MAX };
+                match f.head.ty {
+                    4 if f.head.flags & 1 == 0 => { self.req.extend(RawFrame::new(4, 1, 0, vec![]).encode()); }
+                    1 => {
+                        let mut pl = &f.payload[..];
+                        if f.head.flags & 0x08 != 0 && !pl.is_empty() { let pad = pl[0] as usize; pl = &pl[1..]; if pad <= pl.len() { pl = &pl[..pl.len() - pad]; } }
+                        if f.head.flags & 0x20 != 0 && pl.len() >= 5 { pl = &pl[5..]; }
+                        if f.head.flags & 0x04 == 0 { self.obs.h2_end = Some("HEADERS without END_HEADERS (CONTINUATION is not supported by this client)".into()); return true; }
+                        match self.hdec.as_mut().map(|d| d.decode(pl)) {
+                            Some(Ok(b)) => {
+                                let get = |n: &str| b.fields.iter().find(|(name, _)| name == n).map(|(_, v)| v.clone());
+                                let st: Option<u16> = get(":status").and_then(|v| v.parse().ok());
+                                // trailers carry no :status
+                                if st.is_some() { self.note_answer(w, k, st, get("x-tenant"), get("x-sim-id").and_then(|v| v.trim().parse().ok())); }
+                            }
+                            Some(Err(e)) => { self.obs.h2_end = Some(format!("hpack: {e}")); return true; }
+                            None => {}
+                        }
+                        if f.head.flags & 0x01 != 0 { if let Some(r) = self.obs.reqs.get_mut(k) { r.complete = true; } }
                     }
-                    return true;
+                    0 => { if f.head.flags & 0x01 != 0 { if let Some(r) = self.obs.reqs.get_mut(k) { r.complete = true; } } }
+                    3 => {
+                        let code = f.payload.get(0..4).map(|b| u32::from_be_bytes([b[0], b[1], b[2], b[3]])).unwrap_or(u32::MAX);
+                        let now = seq(w);
+                        if let Some(r) = self.obs.reqs.get_mut(k) { if !r.complete { r.complete = true; if r.status_seq.is_none() { r.end = Some(format!("RST_STREAM {code}")); r.status_seq = Some(now); } } }
+                    }
+                    7 => {
+                        let last = f.payload.get(0..4).map(|b| u32::from_be_bytes([b[0] & 0x7f, b[1], b[2], b[3]])).unwrap_or(0);
+                        self.obs.h2_end = Some(format!("GOAWAY last_stream={last} code={:?}", f.payload.get(4..8)));
+                        self.goaway = true;
+                        let now = seq(w);
+                        for (j, r) in self.obs.reqs.iter_mut().enumerate() {
+                            if 2 * j as u32 + 1 > last && r.sent_start.is_some() && !r.complete { r.complete = true; if r.status_seq.is_none() { r.end = Some("refused by GOAWAY".into()); r.status_seq = Some(now); } }
+                        }
+                    }
+                    _ => {}
                 }
-                3 => { self.obs.h2_end = Some(format!("RST_STREAM on {}", f.head.stream)); if f.head.stream == 1 { return true; } }
-                7 => { self.obs.h2_end = Some(format!("GOAWAY {:?}", f.payload.get(4..8))); return true; }
-                _ => {}
             }
         }
-        false
+        // the next request follows once everything sent so far has been answered completely
+        let all_done = self.obs.reqs.iter().take(self.emitted).all(|r| r.complete);
+        if all_done && self.emitted < self.seq_plan.len() && !self.goaway { self.emit_next(w); return false; }
+        all_done
     }
 }
 
@@ -578,14 +667,14 @@ impl Actor for HsClient {
                         let t = self.tr.as_mut().unwrap();
                         if t.pending_out() > 0 { t.write(w, &[], usize::MAX); return Step::Progress; }
                         if self.plan.request.is_none() { return self.finish(w); }
-                        self.build_request();
+                        self.begin_requests(w);
                         self.state = 4;
                         return Step::Progress;
                     }
                 }
                 if progressed { Step::Progress } else { Step::Idle(self.give_up_at) }
             }
-            // one request
+            // the request sequence
             4 => {
                 let mut progressed = false;
                 let q = if self.plan.wq == 0 { usize::MAX } else { self.plan.wq.max(16) };
@@ -594,24 +683,27 @@ impl Actor for HsClient {
                     let n = t.write(w, &self.req[self.req_off..], q);
                     self.req_off += n;
                     if n > 0 { progressed = true; }
-                    if self.req_off >= self.req.len() { self.obs.req_sent = true; }
                 } else if t.pending_out() > 0 {
                     let before = t.wire_written();
                     t.write(w, &[], q);
                     if t.wire_written() != before { progressed = true; }
                 }
+                let t = self.tr.as_ref().unwrap();
+                if self.req_off >= self.req.len() && t.pending_out() == 0 { for r in self.obs.reqs.iter_mut().take(self.emitted) { r.sent = true; } }
                 let t = self.tr.as_mut().unwrap();
                 let mut sink = Vec::new();
                 let r = t.read(w, &mut sink, 16384);
                 self.plain_in.extend_from_slice(&sink);
                 self.note_tls(w);
-                if !self.plain_in.is_empty() || matches!(r, ReadOutcome::Data(_)) {
-                    if self.digest_response() { self.obs.status_seq = Some(seq(w)); return self.finish(w); }
+                if !self.plain_in.is_empty() {
+                    let emitted = self.emitted;
+                    if self.digest_response(w) { return self.finish(w); }
+                    if self.emitted != emitted || self.req_off < self.req.len() { progressed = true; }
                 }
                 match r {
                     ReadOutcome::Data(_) => progressed = true,
                     ReadOutcome::WouldBlock => {}
-                    ReadOutcome::Eof | ReadOutcome::Err(_) => { return self.finish(w); }
+                    ReadOutcome::Eof | ReadOutcome::Err(_) => { self.h1p.on_eof(w.now); return self.finish(w); }
                 }
                 if progressed { Step::Progress } else { Step::Idle(self.give_up_at) }
             }
@@ -635,15 +727,27 @@ pub struct HsOutcome {
     pub stats: crate::world::Stats,
     pub t_end: u64,
     pub log: Vec<String>,
+    /// requests seen by the tenants' backends: `x-sim-id` -> (tenant whose backend received it, Host header as received)
+    pub delivered: BTreeMap<u64, Vec<(String, String)>>,
 }
+
+/// every hostname that has (or may get) a frontend in this plan is a tenant of its own
+pub fn tenants(p: &HsPlan) -> Vec<String> {
+    let mut t: BTreeSet<String> = BTreeSet::new();
+    for l in &p.listeners { for f in &l.fronts { t.insert(f.clone()); } }
+    for c in &p.cmds { if let HsOp::AddFront(h) | HsOp::RemoveFront(h) = &c.op { t.insert(h.clone()); } }
+    t.into_iter().collect()
+}
+pub fn cluster_of(host: &str) -> String { format!("t_{host}") }
+fn backend_addr(k: usize) -> SocketAddr { format!("10.1.{}.{}:8080", k / 200, 10 + k % 200).parse().unwrap() }
 
 pub fn to_request(addr: SocketAddr, op: &HsOp, fx: &[Fx]) -> Request {
     match op {
         HsOp::Cert(Op::Add(a)) => RequestType::AddCertificate(AddCertificate { address: addr.into(), certificate: build_ck(a, fx), expired_at: a.expired_at }).into(),
         HsOp::Cert(Op::Remove(r)) => RequestType::RemoveCertificate(RemoveCertificate { address: addr.into(), fingerprint: resolve_ref(r, fx).0 }).into(),
         HsOp::Cert(Op::Replace { old, new }) => RequestType::ReplaceCertificate(ReplaceCertificate { address: addr.into(), new_certificate: build_ck(new, fx), old_fingerprint: resolve_ref(old, fx).0, new_expired_at: new.expired_at }).into(),
-        HsOp::AddFront(h) => RequestType::AddHttpsFrontend(RequestHttpFrontend { cluster_id: Some("cl".into()), address: addr.into(), hostname: h.clone(), path: PathRule::prefix("/".to_string()), position: RulePosition::Tree.into(), ..Default::default() }).into(),
-        HsOp::RemoveFront(h) => RequestType::RemoveHttpsFrontend(RequestHttpFrontend { cluster_id: Some("cl".into()), address: addr.into(), hostname: h.clone(), path: PathRule::prefix("/".to_string()), position: RulePosition::Tree.into(), ..Default::default() }).into(),
+        HsOp::AddFront(h) => RequestType::AddHttpsFrontend(RequestHttpFrontend { cluster_id: Some(cluster_of(h)), address: addr.into(), hostname: h.clone(), path: PathRule::prefix("/".to_string()), position: RulePosition::Tree.into(), ..Default::default() }).into(),
+        HsOp::RemoveFront(h) => RequestType::RemoveHttpsFrontend(RequestHttpFrontend { cluster_id: Some(cluster_of(h)), address: addr.into(), hostname: h.clone(), path: PathRule::prefix("/".to_string()), position: RulePosition::Tree.into(), ..Default::default() }).into(),
     }
 }
 
@@ -656,6 +760,11 @@ pub fn run(plan: &HsPlan, fx: &'static [Fx], log: bool) -> HsOutcome {
         let addrs: Vec<SocketAddr> = p.listeners.iter().map(|l| l.addr.parse().expect("listener address")).collect();
         let knobs = Knobs::default();
         let mut conf: Vec<Request> = Vec::new();
+        let tenants = tenants(&p);
+        for (k, t) in tenants.iter().enumerate() {
+            conf.push(RequestType::AddCluster(Cluster { cluster_id: cluster_of(t), ..Default::default() }).into());
+            conf.push(RequestType::AddBackend(AddBackend { cluster_id: cluster_of(t), backend_id: format!("{}-0", cluster_of(t)), address: backend_addr(k).into(), load_balancing_parameters: Some(LoadBalancingParams::default()), sticky_id: None, backup: None }).into());
+        }
         for (l, a) in p.listeners.iter().zip(addrs.iter()) {
             let mut lb = ListenerBuilder::new_https((*a).into());
             lb.with_front_timeout(Some(knobs.front_timeout)).with_back_timeout(Some(knobs.back_timeout)).with_connect_timeout(Some(knobs.connect_timeout)).with_request_timeout(Some(knobs.request_timeout));
@@ -663,12 +772,13 @@ pub fn run(plan: &HsPlan, fx: &'static [Fx], log: bool) -> HsOutcome {
             cfg.strict_sni_binding = l.strict;
             conf.push(RequestType::AddHttpsListener(cfg).into());
             for c in &l.initial { conf.push(to_request(*a, &HsOp::Cert(Op::Add(c.clone())), fx)); }
+            for f in &l.fronts { conf.push(to_request(*a, &HsOp::AddFront(f.clone()), fx)); }
             conf.push(RequestType::ActivateListener(ActivateListener { address: (*a).into(), proxy: ListenerType::Https.into(), from_scm: false }).into());
         }
-        conf.push(RequestType::AddCluster(Cluster { cluster_id: "cl".into(), ..Default::default() }).into());
         let cmds: Vec<(CmdPlan, Request)> = p.cmds.iter().map(|c| (c.clone(), to_request(addrs[c.listener.min(addrs.len() - 1)], &c.op, fx))).collect();
         let mut my_master = 0usize;
         let mut client_ids: Vec<usize> = Vec::new();
+        let mut backend_ids: Vec<usize> = Vec::new();
         let (end, _mid) = netsim::run_worker(&mut w, knobs.server_config(), ConfigState::new(), Listeners::default(), |w, m: &mut Master| {
             // the command channel is driven by this tier's own master actor (per-response stamps,
             // per-command fragmentation, gates): take the descriptor over from the stock one
@@ -676,6 +786,13 @@ pub fn run(plan: &HsPlan, fx: &'static [Fx], log: bool) -> HsOutcome {
             m.fd = -1;
             m.closed = true;
             my_master = w.add_actor(Box::new(HsMaster::new(fd, conf, cmds, p.clients.len())));
+            // one HTTP/1.1 backend per tenant; its answers name the tenant and echo the request id
+            for (k, t) in tenants.iter().enumerate() {
+                let default = RespSpec { headers: vec![("x-tenant".to_string(), t.clone())], ..RespSpec::ok(BodySpec::None) };
+                let bp = BackendPlan { name: format!("backend-{t}"), addr: backend_addr(k), pace: Pace::greedy(), responses: BTreeMap::new(), default, close_on_accept: vec![], listen_from_ns: 0, listen_until_ns: 0 };
+                w.topo.insert(backend_addr(k), ConnectMode::Listen { delay_ns: 0 });
+                backend_ids.push(w.add_actor(Box::new(H1Backend::new(bp, Prng::derive(p.world_seed, &format!("c17/backend/{k}"))))));
+            }
             for (i, c) in p.clients.iter().enumerate() {
                 let dst = addrs[c.listener.min(addrs.len() - 1)];
                 client_ids.push(w.add_actor(Box::new(HsClient::new(i, c.clone(), dst))));
@@ -695,7 +812,12 @@ pub fn run(plan: &HsPlan, fx: &'static [Fx], log: bool) -> HsOutcome {
             stats: w.stats.clone(),
             t_end: w.now,
             log: Vec::new(),
+            delivered: BTreeMap::new(),
         };
+        for (k, id) in backend_ids.iter().enumerate() {
+            let b: &H1Backend = w.actor_ref(*id);
+            for rec in b.all_records() { for m in rec.requests.iter().chain(rec.partial.iter()) { if let Some(sid) = m.sim_id { o.delivered.entry(sid).or_default().push((tenants[k].clone(), m.header("host").unwrap_or("").to_string())); } } }
+        }
         for id in &client_ids { let c: &HsClient = w.actor_ref(*id); o.clients.push(c.obs.clone()); }
         o.log = std::mem::take(&mut w.log);
         o
